@@ -23,6 +23,11 @@ def block(s):
 
 
 def cases(rng, tier):
+    # lopsided compositions with >= 18 neutrals given ALREADY SEGREGATED (neutrals at one end): delta-max is composition-only
+    for comp in ((2, 38, 19), (38, 2, 19), (1, 20, 18), (3, 30, 25), (2, 9, 23), (1, 7, 40)) if tier != "quick" else ((2, 38, 19), (1, 20, 18), (2, 9, 23)):
+        a, b, n0 = comp
+        for pat in ("0" * n0 + "+" * a + "-" * b, "+" * a + "-" * b + "0" * n0, "-" * b + "+" * a + "0" * n0):
+            yield Case(block(gen.spell(pat, rng)), {"kind": "segregated-input"})
     # objects handed back by moves / shuffles, and copy / deepcopy / pickle duplicates of objects with built-up state
     for l in core.childq_cases(rng, 60 if tier == "quick" else 400, ['dmax', 'dmaxperm']):
         yield Case([l], {"kind": "object-from-move-or-copy"})
